@@ -299,7 +299,7 @@ func c14SpecCases(tier string) []any {
 					pl = pl % 2 // lint's values.yaml rule does not see subchart values (K-C14-1): single chart
 				}
 				rot++
-				if tier == "thorough" || d.URL == "" || !accept || rot%3 == 0 {
+				if tier == "thorough" || !accept || (d.URL == "" && rot%2 == 0) || rot%5 == 0 {
 					out = append(out, mk(op, pl))
 				}
 			}
